@@ -25,7 +25,8 @@ CLAIM = ('For every BMP code point, the frozen regular expressions classify it a
          'illegal character is matched and decoded by the reader, has fixed width and uses only characters '
          'legal in names; the pubid class is production [13]; every flag the constructor stores has an effect; '
          "comment coercion ends with no '--' and no trailing '-'. Every exit of toXmlName has applied the "
-         'first-character class to the first character and the name class to the rest.')
+         'first-character class to the first character and the name class to the rest.'
+         " The escape reader's character class is exactly the writer's alphabet (ASCII hexadecimal digits).")
 NOT_DECIDED = ("acceptance by expat, non-BMP characters, injectivity for names that already contain an escape pattern "
                "(excluded by the statement).")
 MODULES = ["_ihatexml.py"]
